@@ -142,24 +142,13 @@ func (o *Optimizer) optimizeSelectExpressions(stmt *SelectStmt) {
 	for i, field := range stmt.Fields {
 		// fmt.Println("Before opt", field)
 		eo.Root = field
-		optimized := eo.Optimize()
-		if o.findAggrFunc(field) && !o.findAggrFunc(optimized) {
-			// The simplification drops the aggregate function of the field
-			// (count(1) > 0 | 1 = 1), the field must stay an aggregate field
-			continue
-		}
-		stmt.Fields[i] = optimized
+		stmt.Fields[i] = eo.Optimize()
 		// fmt.Println("After opt", o.stmt.Fields[i])
 	}
 }
 
 func (o *Optimizer) findAggrFunc(expr Expression) bool {
-	found := false
-	walkAggrFuncs(expr, func(e *FunctionCallExpr, fname string) bool {
-		found = true
-		return false
-	})
-	return found
+	return exprHasAggrFunc(expr)
 }
 
 func (o *Optimizer) buildFinalPlan(s Storage, fp Plan, stmt *SelectStmt) (FinalPlan, error) {
